@@ -119,20 +119,44 @@ Proof.
   exact G.
 Qed.
 
-(** ** CALL: the only replies are refusals of the CALL being processed *)
+(** ** CALL: the only replies are refusals of the CALL being processed, and
+    every refusal leaves no record of that call (a refused further chunk ends
+    the pending call) *)
 Theorem call_replies : forall cfg lookup now d caller req opts proc args kw oracle m,
     dealer_wf lookup d ->
     In m (call_out (call cfg lookup now d caller req opts proc args kw oracle)) ->
     forall cid fin, reply_of m = Some (cid, fin) ->
       cid = (s_id caller, req) /\ fin = true /\
       exists d', call cfg lookup now d caller req opts proc args kw oracle = CallRefused d' [m] /\
-                 d_calls d' = d_calls d /\ d_invs d' = d_invs d /\ d_bycall d' = d_bycall d /\
-                 (cget (d_bycall d) cid = None -> cget (d_calls d') cid = None).
+                 cget (d_calls d') cid = None /\
+                 (forall k, cget (d_bycall d) cid = Some k -> gone d' cid k) /\
+                 (cget (d_bycall d) cid = None ->
+                  d_calls d' = d_calls d /\ d_invs d' = d_invs d /\ d_bycall d' = d_bycall d).
 Proof.
   intros cfg lookup now d caller req opts proc args kw oracle m WF Hin cid fin Hr.
   assert (Hnone : cget (d_bycall d) (s_id caller, req) = None -> cget (d_calls d) (s_id caller, req) = None).
   { intros Hb. destruct (cget (d_calls d) (s_id caller, req)) eqn:Ec; [|reflexivity].
     destruct (wf_call lookup d WF _ _ Ec) as (_ & _ & Hn). congruence. }
+  assert (Hnps : cget (d_calls (no_proc_state d (s_id caller, req))) (s_id caller, req) = None /\
+                 (forall k, cget (d_bycall d) (s_id caller, req) = Some k ->
+                            gone (no_proc_state d (s_id caller, req)) (s_id caller, req) k) /\
+                 (cget (d_bycall d) (s_id caller, req) = None ->
+                  d_calls (no_proc_state d (s_id caller, req)) = d_calls d /\
+                  d_invs (no_proc_state d (s_id caller, req)) = d_invs d /\
+                  d_bycall (no_proc_state d (s_id caller, req)) = d_bycall d)).
+  { split; [|split].
+    - destruct (cget (d_bycall d) (s_id caller, req)) as [k|] eqn:Hb.
+      + apply (nps_gone d _ k Hb).
+      + rewrite nps_none by exact Hb. auto.
+    - apply nps_gone.
+    - intros Hb. rewrite nps_none by exact Hb. auto. }
+  assert (Hsame : forall d', d_calls d' = d_calls d -> d_invs d' = d_invs d -> d_bycall d' = d_bycall d ->
+            cget (d_bycall d) (s_id caller, req) = None ->
+            cget (d_calls d') (s_id caller, req) = None /\
+            (forall k, cget (d_bycall d) (s_id caller, req) = Some k -> gone d' (s_id caller, req) k) /\
+            (cget (d_bycall d) (s_id caller, req) = None ->
+             d_calls d' = d_calls d /\ d_invs d' = d_invs d /\ d_bycall d' = d_bycall d)).
+  { intros d' E1 E2 E3 Hb. split; [rewrite E1; auto|]. split; [intros k Hk; congruence | auto]. }
   pose proof (call_cases cfg lookup now d caller req opts proc args kw oracle) as H.
   inversion H as [Hm E|r Hm Hc E|r Hm Hc Ha E|r ikey Hm Hc Ha Hb Hi E|r ikey inv Hm Hc Ha Hb Hi Hl E
                   |r ikey inv callee Hm Hc Ha Hb Hi Hl E|r Hm Hc Ha Hb Hs E|r cid0 next Hm Hc Ha Hb Hs Hl E
@@ -140,7 +164,13 @@ Proof.
                   |r cid0 next callee Hm Hc Ha Hb Hs Hl Hf Hd E];
     rewrite <- E in Hin; cbn [call_out] in Hin; try (destruct Hin as [<-|[]]); try (destruct Hin; fail);
     try discriminate Hr; cbn in Hr; inversion Hr; subst cid fin;
-    (split; [reflexivity|]; split; [reflexivity|]; eexists; split; [reflexivity|]; repeat split; auto).
+    (split; [reflexivity|]; split; [reflexivity|]; eexists; split; [reflexivity|]).
+  - exact Hnps.
+  - exact Hnps.
+  - apply Hsame; auto.
+  - apply Hsame; auto.
+  - apply Hsame; auto.
+  - apply Hsame; auto.
 Qed.
 
 (** REGISTER / UNREGISTER never send a reply to a call *)
